@@ -30,7 +30,9 @@ def tag(insts):
         if any(re.search(p, i.name) for p in PATTERNS) and P not in i.props:
             i.props = list(i.props) + [P]
             i.tier_for = dict(getattr(i, 'tier_for', {}))
-            i.tier_for[P] = 'quick' if any(re.search(p, i.name) for p in QUICK) else 'thorough'
+            # quick: a cheap cross-section; thorough: every tagged instance that is in the quick tier of its
+            # home property; deep: the rest
+            i.tier_for[P] = 'quick' if any(re.search(p, i.name) for p in QUICK) else ('thorough' if i.tier == 'quick' else 'deep')
 
 
 finalizer(tag)
